@@ -508,8 +508,13 @@ where
     #[cfg_attr(feature = "tracing", instrument(skip_all, level = "trace"))]
     fn poll_finish(
         &mut self,
-        _cx: &mut task::Context<'_>,
+        cx: &mut task::Context<'_>,
     ) -> Poll<Result<(), StreamErrorIncoming>> {
+        // A buffer accepted by `send_data` has to be written out completely before the
+        // stream is finished, also when the write has been abandoned half way
+        if self.writing.is_some() {
+            ready!(self.poll_ready(cx))?;
+        }
         Poll::Ready(
             self.stream
                 .finish()
